@@ -4,15 +4,17 @@ from .mir import callee, callee_matches, Prov
 from .ctx import where_of
 
 EXPLANATION = (
-    "(global-census) every static / static mut / thread_local! / const with interior mutability of lib and bin is "
-    "enumerated; each one must be *confined*: its only access is LocalKey::with whose closure uses the shared object "
-    "solely as the parent argument of LexicalScope::new_child (after Rc::clone) or for reads, and returns nothing else "
-    "derived from it; together with the facts that define writes only the own frame and that no caller invokes "
-    "set/get_mut on a syntax scope, the shared object is immutable after initialisation, i.e. instances share no "
-    "mutable state; (own-state) every field of Interpreter is initialised in with_environment from a fresh constructor, "
-    "a constant or the caller's argument; (construction-total) the unwrap/expect sites on the construction path "
-    "(register_stdlib_factories, import_stdlib, native library tables) act on values computed from compiled-in "
-    "constants only, so with a clean census their outcome cannot depend on what other instances have evaluated.")
+    '(global-census) every static / static mut / thread_local! / const with interior mutability of lib and bin is '
+    'enumerated; each one must be *confined*: its only access is LocalKey::with whose closure uses the shared '
+    'object solely as the parent argument of LexicalScope::new_child (after Rc::clone) or for reads, and returns '
+    'nothing else derived from it; together with the facts that define writes only the own frame and that no '
+    'caller invokes set/get_mut on a syntax scope, the shared object is immutable after initialisation, i.e. '
+    'instances share no mutable state; (own-state) every field of Interpreter is initialised in with_environment '
+    "from a fresh constructor, a constant or the caller's argument; (construction-total) the unwrap/expect sites "
+    'on the construction path (register_stdlib_factories, import_stdlib, native library tables) act on values '
+    'computed from compiled-in constants only, so with a clean census their outcome cannot depend on what other '
+    'instances have evaluated. Census of writers of process-wide state (set_current_dir, set_var, remove_var) in '
+    'the library.')
 NOT_DECIDED = ("observational independence of two arbitrary histories (only the absence of shared mutable state, which is "
                "what makes it possible); that the compiled-in library sources themselves evaluate without error (C05/C11).")
 
